@@ -144,7 +144,7 @@ def mtok(s):
 def classify(fail):
     m = fail.get("meta") or {}
     if fail.get("group") == "schur-adjust1":
-        return dict(site="schur_pressure_correction::init adjust_p=1", type=1, kpp_row_without_diagonal=m.get("nodiag"))
+        return dict(site="schur_pressure_correction::init adjust_p=1", type=m.get("typ"), kpp_row_without_diagonal=m.get("nodiag"))
     if fail.get("group") == "pattern-hang":
         return dict(site="schur_pressure_correction::params pmask_pattern", start_digits=m.get("start_digits"), stride_parsed=0)
     return {}
@@ -206,7 +206,7 @@ def run_schur(ctx, cs):
     for x in of:
         cid = x["oracle"]["line"].split()[0]
         m = meta.get(cid, {})
-        if x["op"] == "o.inverse" and m.get("adj") == 1:
+        if x["op"] in ("o.inverse", "o.schur2") and m.get("adj") == 1:
             x["group"] = "schur-adjust1"; x["meta"] = m
     fails += of
     return fails
